@@ -15,8 +15,11 @@ def run_property(prop: str, tier: str, root: str, seed: int, only_rule=None, qui
         repo = Repo(root)
         mod = importlib.import_module(f"sa.props.{prop.lower()}")
         mod.run(chk, repo)
-        if tier == "thorough" and hasattr(mod, "run_thorough"):
-            mod.run_thorough(chk, repo)
+        if tier == "thorough":
+            if hasattr(mod, "run_thorough"):
+                mod.run_thorough(chk, repo)
+            from .thorough import run_mutants
+            run_mutants(chk, prop, root)
         return chk.finish(repo)
     except AnchorError as e:
         print(f"ANALYSIS-ERROR property={prop}: {e}")
